@@ -317,7 +317,8 @@ func (r *recorder) attempt(name string, layer int, a failsafe.ExecutionAttempt[s
 				}
 			}
 			return M{"ev": name, "x": xOf(a.Context()), "L": layer, "att": att, "exe": exe, "ret": ret, "hdg": hdg,
-				"lr": resName(a.LastResult()), "le": projectErr(le), "st": int64(a.StartTime().Sub(r.t0) / r.unit), "el": int64(a.ElapsedTime() / r.unit)}
+				"lr": resName(a.LastResult()), "le": projectErr(le), "st": int64(a.StartTime().Sub(r.t0) / r.unit), "el": int64(a.ElapsedTime() / r.unit),
+				"ast": int64(a.AttemptStartTime().Sub(r.t0) / r.unit), "ael": int64(a.ElapsedAttemptTime() / r.unit)}
 		}, x)
 		return
 	}
